@@ -479,6 +479,77 @@ def run(ctx: Ctx):
             rule_g(ctx, env)
             rule_h(ctx, env)
     rule_e(ctx)
+    ffsp_wait_column(ctx)
+
+
+def ffsp_wait_column(ctx: Ctx):
+    """C02.i FFSP: a wait only makes progress when there is something to wait for.  The env states the rule itself: waiting is
+    allowed iff a job is still in a previous stage, OR a job of this stage is still being processed upstream (in the stage AND
+    its wait counter positive), OR the instance is done.  Truth table over (previous, in stage, waiting, done) with uniform
+    rows; an entry that is open where the rule closes it lets a policy wait with nothing pending (steps beyond the bound)."""
+    import itertools
+    env = EnvA(ctx.repo, "rl4co/envs/scheduling/ffsp/env.py", "FFSPEnv")
+    sl = env.slot("_update_step_state")
+    if sl is None or sl.cell("action_mask") is None:
+        raise AnalysisError("FFSPEnv._update_step_state: action_mask not written")
+    ctx.fn(sl.fi)
+    root = sl.cell("action_mask")
+    cats = [n for n in vg.walk(root) if nf._fn(n) == "torch.cat" and len(nf._seq_items(n.args[1]) or []) == 2]
+    if len(cats) != 1:
+        raise AnalysisError(f"FFSPEnv._update_step_state: expected cat((job columns, wait column)), found {len(cats)}")
+    wait = nf._seq_items(cats[0].args[1])[-1]
+
+    def mk(f):
+        def a(n):
+            y = nf.strip(n, True)
+            if y.op == "cell0" and y.args[1] == "done":
+                return f["d"]
+            if y.op in ("phi", "ifexp"):
+                vals = {nf.kleene(x, a) for x in y.args[1:]}
+                return vals.pop() if len(vals) == 1 else None
+            if y.op == "meth" and y.args[1] in ("any", "all", "squeeze", "unsqueeze") or (y.op == "sub" and nf.strip(y.args[0], True).op != "cell0"):
+                return nf.kleene(y.args[0], a)          # rows are uniform under the assignment
+            c = nf.cmpnf(y)
+            if c is None:
+                return None
+            P, op = c
+            cells = set()
+            for at in P.atoms():
+                cells |= vg.cells_of(at)
+            pos, neg = nf.sided_cells(P)
+            if "job_wait_step" in cells and "job_location" not in cells:
+                if op == ">0" and "job_wait_step" in pos and P.const_term() == 0:
+                    return f["w"]
+                if op == "==0" and P.const_term() == 0:
+                    return not f["w"]
+                return None
+            if "job_location" in cells and "job_wait_step" not in cells:
+                if op == "==0":
+                    return f["s"]
+                if op == ">0" and "job_location" in neg:
+                    return f["p"]
+                if op == ">=0" and "job_location" in pos:
+                    return not f["p"]
+            return None
+        return a
+    opened, closed, undec = [], [], 0
+    for bits in itertools.product([False, True], repeat=4):
+        f = dict(zip("pswd", bits))
+        if f["p"] and f["s"]:
+            continue                                    # a job is in a previous stage or in this one, not both
+        v = nf.kleene(wait, mk(f))
+        ref = f["p"] or (f["s"] and f["w"]) or f["d"]
+        tag = "".join(k if f[k] else "-" for k in "pswd")
+        if v is None:
+            undec += 1
+        elif v and not ref:
+            opened.append(tag)
+        elif ref and not v:
+            closed.append(tag)
+    ok = not opened and not closed and undec == 0
+    ctx.ob("C02.i", "FFSPEnv:wait-column-follows-its-rule", ok, sl.where,
+           f"wait allowed iff previous-stage job | (in stage & still processed) | done, 12 assignments: opened against the rule {opened}, closed against it {closed}, undetermined {undec}",
+           construct="FFSPEnv._update_step_state:wait-column:truth-table")
 
 
 def run_thorough(ctx: Ctx):
